@@ -2214,6 +2214,7 @@ impl<'bump, T: 'bump> Vec<'bump, T> {
         Splice {
             drain: self.drain(range),
             replace_with: replace_with.into_iter(),
+            bump: PhantomData,
         }
     }
 }
@@ -2587,6 +2588,10 @@ impl<'a, 'bump, T> FusedIterator for Drain<'a, 'bump, T> {}
 pub struct Splice<'a, 'bump, I: Iterator + 'a + 'bump> {
     drain: Drain<'a, 'bump, I::Item>,
     replace_with: I,
+    // Unlike a plain `Drain`, a `Splice` grows the vector (and therefore
+    // allocates from its `Bump`) in `next` and on drop, so it must be exactly
+    // as `!Send` and `!Sync` as the `&'bump Bump` inside the vector.
+    bump: PhantomData<&'bump Bump>,
 }
 
 impl<'a, 'bump, I: Iterator> Iterator for Splice<'a, 'bump, I> {
